@@ -323,6 +323,6 @@ def structure_oracle(case, stats):
 
 PARTS = [
     EnumPart("all-element-pairs", pair_cases, pair_oracle, chunk=2000),
-    HypPart("structures", lambda tier: structure_case(), structure_oracle, {"quick": 3000, "thorough": 40000}),
+    HypPart("structures", lambda tier: structure_case(), structure_oracle, {"quick": 8000, "thorough": 60000}),
     FuzzPart("coverage-guided-structures", "structures", runs=5000),
 ]
